@@ -60,6 +60,11 @@ def canonical_age(c, pol, is_date, is_now, days_ok):
     return False
 
 
+def truth_of(a):
+    a = strip(a)
+    return isinstance(a, Const) and bool(a.value)
+
+
 def check(ctx):
     b = ctx.graph('empty')
     g = b.g
@@ -100,44 +105,57 @@ def check(ctx):
     for what, n, c in date_uses(ctx, 'empty'):
         cmps.append(n)
     ctx.require(cmps, 'C10: no age comparison found in the empty graph')
-    canon_true = []
-    seen = set()
-    for n in cmps:
-        c, pol = unwrap_not(n.data['cond'], n.data['pol'])
-        key = (cid(c))
-        ok = canonical_age(c, True, is_date, is_now, days_ok)
-        if key not in seen:
-            seen.add(key)
-            ctx.ob('R10.1', 'age comparison is the canonical strict form', ok, node=n,
-                   message='the age test is %s: not "deletion_date < now - timedelta(days=D)" '
-                           '(wrong operator, unit or operand)' % short(c, 160))
-            c0 = strip(c)
-            if isinstance(c0, Cmp):
-                dates = [x for x in (c0.left, c0.right) if has_strptime(x)]
-                ctx.ob('R10.3', 'the date compared comes from the shared DeletionDate parser, '
-                                'now from TRASH_DATE or the clock',
-                       any(is_date(x) or (isinstance(strip(x), Bin)) for x in dates), node=n,
-                       message='operands of the age test: %s' % short(c, 120))
-        if ok and pol:
-            canon_true.append(n.id)
-        if ok:
-            # only evaluated for a dated entry
-            guarded = False
-            for cc, pp, a in guards(b, n.id):
-                c2, p2 = unwrap_not(cc, pp)
-                if isinstance(c2, Cmp) and c2.op in ('is not', '!=', 'is', '==') and \
-                        is_const(strip(c2.right), None) and has_strptime(c2.left):
-                    if (c2.op in ('is not', '!=')) == p2:
-                        guarded = True
-            ctx.ob('R10.2', 'the comparison is evaluated only for a dated entry', guarded,
-                   node=n, message='an entry without (valid) DeletionDate reaches the age '
-                                   'comparison')
     days_none = [n.id for n in assume_nodes(
         b, lambda c, pol, n: isinstance(c, Cmp) and c.op in ('is', '==') and pol and
         is_const(strip(c.right), None) and days_ok(c.left))]
     days_none += [n.id for n in assume_nodes(
         b, lambda c, pol, n: isinstance(c, Cmp) and c.op in ('is not', '!=') and not pol and
         is_const(strip(c.right), None) and days_ok(c.left))]
+    canon_true = []
+    seen = set()
+    for n in cmps:
+        c, pol = unwrap_not(n.data['cond'], n.data['pol'])
+        # the verdict may reach the test as the return value of a helper: then the
+        # condition is a join of the comparison with the constants returned elsewhere
+        c0 = strip(c)
+        parts = list(alts(c0)) if isinstance(c0, Phi) else [(c, None)]
+        consts = [(a, o) for a, o in parts if isinstance(strip(a), Const)]
+        tests = [(a, o) for a, o in parts if not isinstance(strip(a), Const)]
+        ok = bool(tests) and all(canonical_age(a, True, is_date, is_now, days_ok)
+                                 for a, o in tests)
+        key = (cid(c))
+        if key not in seen:
+            seen.add(key)
+            ctx.ob('R10.1', 'age comparison is the canonical strict form', ok, node=n,
+                   message='the age test is %s: not "deletion_date < now - timedelta(days=D)" '
+                           '(wrong operator, unit or operand)' % short(c, 160))
+            for a, o in tests:
+                a0 = strip(a)
+                if isinstance(a0, Cmp):
+                    dates = [x for x in (a0.left, a0.right) if has_strptime(x)]
+                    ctx.ob('R10.3', 'the date compared comes from the shared DeletionDate '
+                                    'parser, now from TRASH_DATE or the clock',
+                           any(is_date(x) or (isinstance(strip(x), Bin)) for x in dates),
+                           node=n, message='operands of the age test: %s' % short(a, 120))
+        # a constant True in the join must be the verdict for "DAYS not given"
+        true_ok = all(o is not None and any(g.dominates(dn, o) for dn in days_none)
+                      for a, o in consts if truth_of(a))
+        if ok and pol and true_ok:
+            canon_true.append(n.id)
+        if ok:
+            # only evaluated for a dated entry
+            for a, o in tests:
+                site = o if o is not None else n.id
+                guarded = False
+                for cc, pp, a_ in guards(b, site):
+                    c2, p2 = unwrap_not(cc, pp)
+                    if isinstance(c2, Cmp) and c2.op in ('is not', '!=', 'is', '==') and \
+                            is_const(strip(c2.right), None) and has_strptime(c2.left):
+                        if (c2.op in ('is not', '!=')) == p2:
+                            guarded = True
+                ctx.ob('R10.2', 'the comparison is evaluated only for a dated entry', guarded,
+                       node=n, message='an entry without (valid) DeletionDate reaches the age '
+                                       'comparison')
     deletes = mutating_effects(b, 'DELETE')
     listed = [d for d in deletes if classify(d.data['roles']['path'])[0] <= {'payload', 'info'}]
     ctx.require(listed, 'C10: no DELETE of listed entries')
